@@ -81,6 +81,9 @@ def check(ctx, env):
     ctx.floor("R19.1", "panic sites inventoried", st["sites"], 150)
     r19_2_shared_pointers(ctx, prog)
     r19_3_error_code_invariant(ctx, prog)
+    if env.tier == "thorough":
+        from .. import witness
+        witness.run(ctx, "R19.3", ["W3"])
 
 
 def r19_3_error_code_invariant(ctx, prog, rule="R19.3"):
